@@ -50,9 +50,10 @@ impl WriteRec {
     pub fn queued(&self) -> bool {
         self.apply_begin.is_some() || self.drained.is_some()
     }
-    /// final status if anyone observed it
+    /// final status if anyone observed it (the placeholder `Pending` -- C12's business -- counts as
+    /// "not known")
     pub fn status(&self) -> Option<St> {
-        self.ack_obs.map(|a| a.1)
+        self.ack_obs.map(|a| a.1).filter(|s| *s != St::Pending)
     }
     /// sequence number from which the write is *definitely complete* for its client:
     /// the acknowledgement was observed resolved. None = never observed.
